@@ -384,6 +384,11 @@ def makedirs_guarded(ctx, rule, qualnames):
                 cur = c
                 while cur in parent:
                     up = parent[cur]
+                    if isinstance(up, ast.If) and cur in up.orelse:
+                        t2_ = src(up.test)
+                        if (('exists(' in t2_ or 'isdir(' in t2_) and ('absolute()' in t2_ or 'abspath(' in t2_ or 'resolve()' in t2_)
+                                and not t2_.lstrip().startswith('not')):
+                            guarded = True      # the else branch of "the absolute directory exists"
                     if isinstance(up, ast.If) and cur in up.body:
                         t_ = src(up.test)
                         # the directory part itself is tested, or the ABSOLUTE directory is known to be missing (a bare file name
